@@ -44,6 +44,9 @@ CONSTANTS
     MaxFail,      \*        FALSE = a retrieval may fail for ever
     AllowOk,      \* FALSE = every retrieval fails ("even while a retrieval keeps failing")
     StopInRetry,  \* TRUE = repaired code (service stop ends the retry loop), FALSE = code as found
+    Relay,        \* FALSE = the header feed is a channel the environment writes and closes itself;
+                  \* TRUE  = the node's wiring: the feed is nodebuilder/header Service.Subscribe, a relay
+                  \*         goroutine between the gossip header subscription and the channel
     RecordHist    \* TRUE = keep the sequence of stimuli (behaviour generation)
 
 VARIABLES
@@ -60,10 +63,15 @@ VARIABLES
     user, svc,   \* subscriber's context cancelled / service stopped
     cause,       \* ghost: which return statement ended the stream
     fullAtClose, \* ghost: the buffer was full when the overflow check ended the stream
+    relay,       \* the relay goroutine: "reading" (in subscription.NextHeader), "forward" (holds a
+                 \* header, in select {ctx.Done / headerCh <- h}), "ended" (returned: headerCh closed,
+                 \* subscription cancelled)
+    held,        \* the header the relay holds (0 = none)
+    subFailed,   \* the gossip subscription has failed for good (cancelled, topic closed)
     hist
 
 vars == <<next, feedClosed, loop, cur, okRecv, blobs, fails, buf, delivered, sawClose,
-          user, svc, cause, fullAtClose, hist>>
+          user, svc, cause, fullAtClose, relay, held, subFailed, hist>>
 
 Log(e) == hist' = IF RecordHist THEN Append(hist, e) ELSE hist
 Closed == loop = "closed"
@@ -74,6 +82,7 @@ Init ==
     /\ loop = "waitHeader" /\ cur = 0 /\ okRecv = TRUE /\ blobs = 0 /\ fails = 0
     /\ buf = <<>> /\ delivered = <<>> /\ sawClose = FALSE
     /\ user = FALSE /\ svc = FALSE /\ cause = "-" /\ fullAtClose = FALSE
+    /\ relay = "reading" /\ held = 0 /\ subFailed = FALSE
     /\ hist = <<>>
 
 Close(why) == loop' = "closed" /\ cause' = why
@@ -83,47 +92,48 @@ Close(why) == loop' = "closed" /\ cause' = why
 
 \* outer select, case header := <-headerCh with a header (rendezvous with the feed)
 RecvHeader ==
+    /\ ~Relay
     /\ loop = "waitHeader" /\ ~feedClosed /\ next <= N
     /\ cur' = next /\ next' = next + 1 /\ okRecv' = TRUE /\ fails' = 0
     /\ loop' = "checkCtx"
     /\ Log([a |-> "hdr", h |-> next])
-    /\ UNCHANGED <<feedClosed, blobs, buf, delivered, sawClose, user, svc, cause, fullAtClose>>
+    /\ UNCHANGED <<feedClosed, blobs, buf, delivered, sawClose, user, svc, cause, fullAtClose, relay, held, subFailed>>
 
 \* outer select, case header, ok := <-headerCh on the closed channel
 RecvClosed ==
     /\ loop = "waitHeader" /\ feedClosed
     /\ okRecv' = FALSE /\ loop' = "checkCtx"
     /\ UNCHANGED <<next, feedClosed, cur, blobs, fails, buf, delivered, sawClose, user, svc,
-                   cause, fullAtClose, hist>>
+                   cause, fullAtClose, hist, relay, held, subFailed>>
 
 SelUserDone ==
     /\ loop = "waitHeader" /\ user /\ Close("user")
     /\ UNCHANGED <<next, feedClosed, cur, okRecv, blobs, fails, buf, delivered, sawClose, user, svc,
-                   fullAtClose, hist>>
+                   fullAtClose, hist, relay, held, subFailed>>
 
 SelSvcDone ==
     /\ loop = "waitHeader" /\ svc /\ Close("svc")
     /\ UNCHANGED <<next, feedClosed, cur, okRecv, blobs, fails, buf, delivered, sawClose, user, svc,
-                   fullAtClose, hist>>
+                   fullAtClose, hist, relay, held, subFailed>>
 
 CheckCtx ==
     /\ loop = "checkCtx"
     /\ IF user THEN Close("user") ELSE loop' = "checkOk" /\ UNCHANGED cause
     /\ UNCHANGED <<next, feedClosed, cur, okRecv, blobs, fails, buf, delivered, sawClose, user, svc,
-                   fullAtClose, hist>>
+                   fullAtClose, hist, relay, held, subFailed>>
 
 CheckOk ==
     /\ loop = "checkOk"
     /\ IF ~okRecv THEN Close("feed") ELSE loop' = "checkOverflow" /\ UNCHANGED cause
     /\ UNCHANGED <<next, feedClosed, cur, okRecv, blobs, fails, buf, delivered, sawClose, user, svc,
-                   fullAtClose, hist>>
+                   fullAtClose, hist, relay, held, subFailed>>
 
 CheckOverflow ==
     /\ loop = "checkOverflow"
     /\ IF Len(buf) = Cap
        THEN Close("overflow") /\ fullAtClose' = TRUE
-       ELSE loop' = "retrieving" /\ UNCHANGED <<cause, fullAtClose>>
-    /\ UNCHANGED <<next, feedClosed, cur, okRecv, blobs, fails, buf, delivered, sawClose, user, svc, hist>>
+       ELSE loop' = "retrieving" /\ UNCHANGED <<cause, fullAtClose, relay, held, subFailed>>
+    /\ UNCHANGED <<next, feedClosed, cur, okRecv, blobs, fails, buf, delivered, sawClose, user, svc, hist, relay, held, subFailed>>
 
 \* one pass of the retry loop: getAll returns (ok: the blobs of cur, fail: garbage + error)
 Attempt(ok) ==
@@ -131,12 +141,12 @@ Attempt(ok) ==
     /\ ok \/ ~CountFails \/ fails < MaxFail
     /\ blobs' = IF ok THEN cur ELSE 0
     /\ IF user THEN Close("user") /\ UNCHANGED fails
-       ELSE IF ok THEN loop' = "sending" /\ UNCHANGED <<cause, fails>>
+       ELSE IF ok THEN loop' = "sending" /\ UNCHANGED <<cause, fails, relay, held, subFailed>>
        ELSE IF StopInRetry /\ svc THEN Close("svc") /\ UNCHANGED fails
        ELSE /\ loop' = "retrieving" /\ UNCHANGED cause
             /\ fails' = IF CountFails THEN fails + 1 ELSE fails
     /\ Log([a |-> "att", h |-> cur, ok |-> ok])
-    /\ UNCHANGED <<next, feedClosed, cur, okRecv, buf, delivered, sawClose, user, svc, fullAtClose>>
+    /\ UNCHANGED <<next, feedClosed, cur, okRecv, buf, delivered, sawClose, user, svc, fullAtClose, relay, held, subFailed>>
 
 \* inner select: the send (there is room: only this goroutine sends and the overflow check passed)
 Send ==
@@ -144,12 +154,57 @@ Send ==
     /\ buf' = Append(buf, [h |-> cur, b |-> blobs])
     /\ loop' = "waitHeader"
     /\ UNCHANGED <<next, feedClosed, cur, okRecv, blobs, fails, delivered, sawClose, user, svc,
-                   cause, fullAtClose, hist>>
+                   cause, fullAtClose, hist, relay, held, subFailed>>
 
 SendUserDone ==
     /\ loop = "sending" /\ user /\ Close("user")
     /\ UNCHANGED <<next, feedClosed, cur, okRecv, blobs, fails, buf, delivered, sawClose, user, svc,
-                   fullAtClose, hist>>
+                   fullAtClose, hist, relay, held, subFailed>>
+
+-----------------------------------------------------------------------------
+(* the relay: nodebuilder/header/service.go  Service.Subscribe                              *)
+(*   for { h, err := subscription.NextHeader(ctx); if err != nil { return }                 *)
+(*         select { case <-ctx.Done(): return; case headerCh <- h: } }                      *)
+(*   deferred: subscription.Cancel(); close(headerCh)                                       *)
+
+\* NextHeader returns the next header of the gossip subscription
+GossipHeader ==
+    /\ Relay /\ relay = "reading" /\ ~subFailed /\ next <= N
+    /\ held' = next /\ next' = next + 1 /\ relay' = "forward"
+    /\ Log([a |-> "hdr", h |-> next])
+    /\ UNCHANGED <<feedClosed, loop, cur, okRecv, blobs, fails, buf, delivered, sawClose, user, svc,
+                   cause, fullAtClose, subFailed>>
+
+\* headerCh <- h meets the subscription loop's outer select
+RelayForward ==
+    /\ Relay /\ relay = "forward" /\ loop = "waitHeader"
+    /\ cur' = held /\ okRecv' = TRUE /\ fails' = 0 /\ loop' = "checkCtx"
+    /\ relay' = "reading" /\ held' = 0
+    /\ UNCHANGED <<next, feedClosed, blobs, buf, delivered, sawClose, user, svc, cause, fullAtClose,
+                   subFailed, hist>>
+
+\* the subscriber's context is done: NextHeader(ctx) fails / the select takes ctx.Done
+RelayCtxDone ==
+    /\ Relay /\ relay \in {"reading", "forward"} /\ user
+    /\ relay' = "ended" /\ feedClosed' = TRUE        \* a header it holds is never forwarded
+    /\ UNCHANGED <<next, loop, cur, okRecv, blobs, fails, buf, delivered, sawClose, user, svc, cause,
+                   fullAtClose, held, subFailed, hist>>
+
+\* NextHeader returns the permanent error: the relay gives up, which closes the feed
+RelayFail ==
+    /\ Relay /\ relay = "reading" /\ subFailed
+    /\ relay' = "ended" /\ feedClosed' = TRUE
+    /\ UNCHANGED <<next, loop, cur, okRecv, blobs, fails, buf, delivered, sawClose, user, svc, cause,
+                   fullAtClose, held, subFailed, hist>>
+
+RelayStep == RelayForward \/ RelayCtxDone \/ RelayFail
+
+\* environment: the gossip subscription dies (it was cancelled, the topic was closed)
+FeedError ==
+    /\ Relay /\ ~subFailed /\ subFailed' = TRUE
+    /\ Log([a |-> "feederr"])
+    /\ UNCHANGED <<next, feedClosed, loop, cur, okRecv, blobs, fails, buf, delivered, sawClose, user, svc,
+                   cause, fullAtClose, relay, held>>
 
 LoopStep == \/ RecvHeader \/ RecvClosed \/ SelUserDone \/ SelSvcDone \/ CheckCtx \/ CheckOk
             \/ CheckOverflow \/ Send \/ SendUserDone
@@ -161,32 +216,33 @@ Consume ==
     /\ buf # <<>>
     /\ delivered' = Append(delivered, Head(buf)) /\ buf' = Tail(buf)
     /\ Log([a |-> "consume"])
-    /\ UNCHANGED <<next, feedClosed, loop, cur, okRecv, blobs, fails, sawClose, user, svc, cause, fullAtClose>>
+    /\ UNCHANGED <<next, feedClosed, loop, cur, okRecv, blobs, fails, sawClose, user, svc, cause, fullAtClose, relay, held, subFailed>>
 
 \* a receive on the closed, drained channel
 ConsumerSeesClose ==
     /\ Closed /\ buf = <<>> /\ ~sawClose
     /\ sawClose' = TRUE
     /\ UNCHANGED <<next, feedClosed, loop, cur, okRecv, blobs, fails, buf, delivered, user, svc,
-                   cause, fullAtClose, hist>>
+                   cause, fullAtClose, hist, relay, held, subFailed>>
 
 CancelUser ==
     /\ ~user /\ user' = TRUE
     /\ Log([a |-> "cancel"])
     /\ UNCHANGED <<next, feedClosed, loop, cur, okRecv, blobs, fails, buf, delivered, sawClose, svc,
-                   cause, fullAtClose>>
+                   cause, fullAtClose, relay, held, subFailed>>
 
 StopService ==
     /\ ~svc /\ svc' = TRUE
     /\ Log([a |-> "stop"])
     /\ UNCHANGED <<next, feedClosed, loop, cur, okRecv, blobs, fails, buf, delivered, sawClose, user,
-                   cause, fullAtClose>>
+                   cause, fullAtClose, relay, held, subFailed>>
 
 CloseFeed ==
+    /\ ~Relay
     /\ ~feedClosed /\ feedClosed' = TRUE
     /\ Log([a |-> "feedclose"])
     /\ UNCHANGED <<next, loop, cur, okRecv, blobs, fails, buf, delivered, sawClose, user, svc,
-                   cause, fullAtClose>>
+                   cause, fullAtClose, relay, held, subFailed>>
 
 OkChoices == IF AllowOk THEN BOOLEAN ELSE {FALSE}
 AttemptAny == \E ok \in OkChoices : Attempt(ok)
@@ -194,6 +250,7 @@ AttemptAny == \E ok \in OkChoices : Attempt(ok)
 Next ==
     \/ LoopStep \/ AttemptAny
     \/ Consume \/ ConsumerSeesClose \/ CancelUser \/ StopService \/ CloseFeed
+    \/ GossipHeader \/ RelayStep \/ FeedError
 
 Spec == Init /\ [][Next]_vars
 
@@ -212,7 +269,7 @@ InOrderNoGapNoDup ==
 \* Every header taken from the feed has been answered before the next one is awaited
 \* (exactly one response per header).
 OnePerHeader ==
-    (loop = "waitHeader") => Len(Emitted) = next - 1
+    (loop = "waitHeader") => Len(Emitted) = next - 1 - (IF held # 0 THEN 1 ELSE 0)
 
 \* A failing retrieval is retried for the same height: the retry loop is left only towards
 \* the send of that height (with its blobs) or towards the end of the stream.
@@ -236,13 +293,16 @@ NoSendAfterClose == [][Closed => Emitted' = Emitted]_vars
 \* whatever result); the consumer and the environment are not forced to do anything.
 \* With AllowOk = FALSE and CountFails = FALSE every retrieval fails for ever -- "promptly,
 \* even while a retrieval keeps failing".
-LiveSpec == Spec /\ WF_vars(LoopStep) /\ WF_vars(AttemptAny)
+LiveSpec == Spec /\ WF_vars(LoopStep) /\ WF_vars(AttemptAny) /\ WF_vars(RelayStep)
 
 CancelEnds == user ~> Closed
 StopEnds   == svc ~> Closed
 \* the closed feed is noticed when the loop is back at its select: demanded under the
 \* assumption that retrievals do not fail for ever (bounded MaxFail), see C20.py level_note
 FeedCloseEnds == feedClosed ~> Closed
+\* the node's wiring: when the gossip subscription ends for good, the relay ends, the feed closes and
+\* the blob stream ends (same assumption on retrievals)
+FeedErrorEnds == subFailed ~> Closed
 
 Terminal == Closed /\ buf = <<>>
 =============================================================================
